@@ -190,6 +190,8 @@ func build6(req *dhcpv6.Message, k RK, serial, phase int) ([]byte, replyMeta) {
 	cid := req.Options.ClientID()
 	iana := &dhcpv6.OptIANA{IaId: [4]byte{1, 2, 3, byte(serial)}, T1: 10 * time.Second, T2: 20 * time.Second}
 	iana.Options.Add(&dhcpv6.OptIAAddress{IPv6Addr: net.ParseIP(fmt.Sprintf("2001:db8::%d", 16+serial)), PreferredLifetime: 30 * time.Second, ValidLifetime: 60 * time.Second})
+	iana.Options.Add(&dhcpv6.OptIAAddress{IPv6Addr: net.ParseIP(fmt.Sprintf("2001:db8:1::%d", 16+serial)), PreferredLifetime: 31 * time.Second, ValidLifetime: 61 * time.Second})
+	iana.Options.Add(&dhcpv6.OptStatusCode{StatusCode: 0, StatusMessage: "ok"})
 	srv := 1
 	withCID, withSID, withIANA := true, true, true
 	switch k {
@@ -332,6 +334,14 @@ func (s *ExScenario) body(out **exRun) func() {
 				}
 			case "release":
 				run.err = cl.Release(canonicalLease())
+			case "renew+release":
+				// a renewal attempt (whatever its outcome) must leave the lease the caller holds intact:
+				// releasing it afterwards still releases the leased address
+				l0 := canonicalLease()
+				cl.Renew(ctx, l0)
+				run.txs = nil
+				run.offerSer, run.ackSer = ser4(l0.Offer), ser4(l0.ACK)
+				run.err = cl.Release(l0)
 			case "inform":
 				r, err := cl.Inform(ctx, net.IPv4(10, 1, 0, 11))
 				run.err = err
@@ -513,7 +523,10 @@ func (s *ExScenario) check(run *exRun, ex *vs.Exec) (string, string) {
 		if wc != ec || (wc == "" && (run.ackSer != ws || run.offerSer != 200)) || (wc == "nak" && (run.nakSer != ws || run.offerSer != 200)) {
 			return fail("X5-renew-completion", fmt.Sprintf("Renew returned %q (offer %d ack %d nak %d), rules say %q with serial %d and the lease's own offer", ec, run.offerSer, run.ackSer, run.nakSer, wc, ws))
 		}
-	case "release":
+	case "release", "renew+release":
+		if s.Op == "renew+release" && (run.offerSer != 200 || run.ackSer != 201) {
+			return fail("X8-lease-mutated", fmt.Sprintf("Renew changed the lease it was given (offer serial %d, ack serial %d; were 200, 201)", run.offerSer, run.ackSer))
+		}
 		if ec != "" {
 			return fail("X6-release", fmt.Sprintf("Release returned %q", ec))
 		}
@@ -652,6 +665,10 @@ func checkRequest6(rq *dhcpv6.Message, advSerial, server int) string {
 	if ia == nil || ia.IaId != [4]byte{1, 2, 3, byte(advSerial)} {
 		return fmt.Sprintf("REQUEST IA_NA %v is not the advertised one (iaid 01 02 03 %02x)", ia, advSerial)
 	}
+	// the whole advertised IA_NA (both addresses and the status code), not a rebuilt subset
+	if n := len(ia.Options.Options); n != 3 {
+		return fmt.Sprintf("REQUEST IA_NA carries %d of the 3 advertised sub-options: %v", n, ia)
+	}
 	return ""
 }
 
@@ -725,6 +742,21 @@ func c13Scenarios(tier string) []Scenario {
 		add(&ExScenario{Op: "inform", P1: p1})
 	}
 	add(&ExScenario{Op: "release"})
+	for _, p1 := range rkSeqs([]RK{RAck1, RNak1, RAck2, RGarbage}, 2) {
+		add(&ExScenario{Op: "renew+release", P1: p1})
+	}
+	// bursts: the completing reply sits behind k replies that must be ignored (fills the per-transaction buffer)
+	for _, k := range []int{4, 5, 6, 7, 12} {
+		for _, ign := range []RK{RAck2, ROffer1, RWrongHW} {
+			var p2 []RK
+			for i := 0; i < k; i++ {
+				p2 = append(p2, ign)
+			}
+			add(&ExScenario{Op: "request", P1: []RK{ROffer1}, P2: append(append([]RK{}, p2...), RAck1), Bound: 1})
+			add(&ExScenario{Op: "request", P1: append(append([]RK{}, p2...), ROffer1), P2: []RK{RAck1}})
+			add(&ExScenario{Op: "renew", P1: append(append([]RK{}, p2...), RAck1)})
+		}
+	}
 	a6 := []RK{RAdv1, RAdv2, RReply, RReplyRapid, RWrongXid6, RRelay, RGarbage6, ROther6, RAdvNoCID, RAdvNoSID, RAdvNoIANA}
 	n6 := 2
 	if thorough {
